@@ -27,6 +27,7 @@ type G struct {
 	labels  []string
 	sigs    []*Def
 	collide bool
+	distinct bool
 	named   map[string]*Ty // shared KNamed nodes by name
 	inprog  map[string]bool
 }
@@ -45,6 +46,9 @@ type Options struct {
 	// Scale: 0 = the usual sizes, 1 = larger programs (more definitions, deeper types, longer
 	// main bodies) for the thorough tier.
 	Scale int
+	// DistinctLabels: structurally different choice types use different label spellings (a17/b17
+	// here, a52/b52 there) instead of a/b/c everywhere; a renaming may then collapse them again.
+	DistinctLabels bool
 	// Untypeable: a purely linear program (no drop, split or multi-name provider) whose forwards
 	// carry explicit polarity annotations, so that it also runs with typechecking disabled.
 	Untypeable bool
@@ -87,6 +91,19 @@ func (g *G) branches(d int, m string) []Br {
 	var bs []Br
 	for i := 0; i < n; i++ {
 		bs = append(bs, Br{brLabels[i], g.randTy(d, m)})
+	}
+	if g.distinct {
+		// labels belong to their choice: every structurally different choice gets spellings of its
+		// own (a17, b17, ...; equal choices get equal spellings, as type equality demands)
+		h := uint32(2166136261)
+		for _, b := range bs {
+			for _, ch := range []byte(key(b.T) + "|") {
+				h = (h ^ uint32(ch)) * 16777619
+			}
+		}
+		for i := range bs {
+			bs[i].L = fmt.Sprintf("%s%d", bs[i].L, h%89)
+		}
 	}
 	return bs
 }
@@ -683,7 +700,7 @@ var modePairs = [][2]string{{"lin", "rep"}, {"lin", "aff"}, {"lin", "mul"}, {"af
 
 // Generate builds a closed program from the choice function intn(n) in [0,n).
 func Generate(intn func(int) int, opt Options) *Program {
-	g := &G{intn: intn, collide: opt.Collide, mk: map[string]string{}, labels: []string{"p", "q", "u", "v", "w"}, named: map[string]*Ty{}, inprog: map[string]bool{}}
+	g := &G{intn: intn, collide: opt.Collide, distinct: opt.DistinctLabels, mk: map[string]string{}, labels: []string{"p", "q", "u", "v", "w"}, named: map[string]*Ty{}, inprog: map[string]bool{}}
 	g.push()
 	p := &Program{TEnv: TyEnv{}}
 	g.prog = p
